@@ -169,7 +169,7 @@ def gen(rng: Rng, tier, i):
             "load_form": x.pick(["same", "same", "list", "tuple", "set", "frozenset", "dict_keys"]),
             "dups": x.chance(0.2), "empty_skip": x.pick([None, None, "list", "tuple", "str", "set"]),
             "gens": x.pick([2, 2, 3]),
-            "mix_types_into_names": r.chance(0.15), "h5_second": r.chance(0.3),
+            "mix_types_into_names": r.chance(0.3), "mix_order": r.fork("mixo").pick([None, 1, 2, 3, 4, 5]), "h5_second": r.chance(0.3),
             "level": rng.pick([None, 0, 4, 9]),
             "env": serio.gen_env(rng.fork("env"))}
 
@@ -218,10 +218,15 @@ def _build(plan, with_cycle=False):
     return o
 
 
-def _skip_arg(names, form, types=(), dups=False):
+def _skip_arg(names, form, types=(), dups=False, order=None):
     lst = list(names) + list(types)
     if dups and lst:
         lst = lst + [lst[0]] + lst[-1:]
+    if order is not None and names and types:
+        # names and types INTERLEAVED in one argument (round 15, S-C14o: always names-then-types);
+        # Ptychography.save() itself appends names to whatever the user passed
+        import random as _random
+        _random.Random(order).shuffle(lst)
     if form == "frozenset" and not types:
         return frozenset(lst)
     if form == "dict_keys" and not types:
@@ -292,7 +297,10 @@ def run(plan):
 
         def do(tag, save_skip, load_skip, name, second=False, types_at_save=(), with_cycle=False):
             obj = _build(plan, with_cycle=with_cycle)
-            sk = _skip_arg(save_skip, plan["form"], types_at_save, dups=plan.get("dups", False))
+            sk = _skip_arg(save_skip, plan["form"], types_at_save, dups=plan.get("dups", False),
+                           order=plan.get("mix_order"))
+            if save_skip and types_at_save and plan.get("mix_order") is not None:
+                bump(res["probes"], "names_and_types_interleaved")
             _, exc, _ = E.save(obj, E.path(name + ext), mode="w", skip=sk, **kw) if (
                 save_skip or types_at_save) else E.save(obj, E.path(name + ext), mode="w", **kw)
             del obj
